@@ -211,3 +211,56 @@ def rf19_mem(run):
                                   % ('accepts' if not raised else 'rejects', tn, disp, cn,
                                      'block types are legal only as call arguments and UNDEF/BOUND are not data types' if expect
                                      else 'this operand is well-formed and must be accepted'), line=region['line'])
+
+
+def rf19e(run):
+    """address registers of a memory operand are validated independently of each other"""
+    from lib import miniexec as MX
+    rule = 'RF19e'
+    run.rule(rule, 'MIR_finish_func, memory operands: over base in {absent, integer register, floating register} x index in the same '
+                   'three kinds, the validator raises MIR_reg_type_error exactly when the base or the index is a floating-point '
+                   'register (an absent base does not switch off the check of the index) and raises nothing else')
+    tu = run.tu('mir')
+    f = tu.func('MIR_finish_func')
+    run.functions_analysed.add(('mir', f.name))
+    region = None
+    for sw in R.find_switches(f, lambda c: c.endswith('.mode')):
+        for r in R.switch_regions(f, sw):
+            if any(nm == 'MIR_OP_MEM' for nm, lo, hi in r['cases']):
+                region = r
+    if region is None:
+        raise F.AnalysisBroken('MIR_finish_func: case MIR_OP_MEM not found')
+    tkey = None
+    for x in R.region_nodes(region['stmts']):
+        if x['k'] == 'MemberExpr' and x['n'] == 'type' and '.mem' in F.src(x):
+            tkey = F.src(x)
+    pre = tkey[:-len('.type')]
+    tys = dict(tu.enum('MIR_type_t'))
+    codes = dict(tu.enum('MIR_insn_code_t'))
+    REGT = {1: tys['MIR_T_I64'], 2: tys['MIR_T_D'], 3: tys['MIR_T_I64'], 4: tys['MIR_T_F']}
+
+    def find_rd(args, env):
+        r = args[1]
+        if r not in REGT:
+            return None
+        return {'type': REGT[r], 'reg': r}
+    kinds = {'absent': 0, 'integer register': None, 'floating register': None}
+    n = 0
+    for bn, b in (('absent', 0), ('integer register', 1), ('floating register', 2)):
+        for xn, ix in (('absent', 0), ('integer register', 3), ('floating register', 4)):
+            env = {tkey: tys['MIR_T_I64'], pre + '.disp': 0, pre + '.base': b, pre + '.index': ix, pre + '.scale': 1,
+                   'code': codes['MIR_MOV'], 'insn->code': codes['MIR_MOV'], 'i': 1}
+            mx = MX.MiniExec(tu, models={'find_rd_by_reg': find_rd})
+            for st in region['stmts']:
+                if mx.run(st, env) != 'fall':
+                    break
+            got = sorted(set(mx.errors))
+            exp = ['MIR_reg_type_error'] if (b == 2 or ix == 4) else []
+            ok = got == exp
+            n += 1
+            run.ob(rule, (bn, xn), ok, {'base': bn, 'index': xn, 'errors raised': got, 'documented': exp})
+            if not ok:
+                run.violation(rule, f, 'memory operand with base %s, index %s' % (bn, xn),
+                              'for a memory operand whose base is %s and whose index is %s MIR_finish_func raises %s; it must raise %s '
+                              '(address registers are integer registers)' % (bn, xn, got or 'nothing', exp or 'nothing'), line=region['line'])
+    return n
